@@ -104,6 +104,8 @@ class Repo:
                 tree = ast.parse(src, filename=path)
             except SyntaxError as e:
                 raise AnalysisError('%s does not parse: %s' % (path, e))
+            from . import canon
+            self.canon_notes = getattr(self, 'canon_notes', []) + canon.canonicalise(name, tree)
             self.modules[name] = Module(name, path, tree, src)
             self.digests[name] = hashlib.sha256(src.encode()).hexdigest()[:16]
         for name in PYX_MODULES:
